@@ -43,7 +43,7 @@ theorem verify_tr_key (env : VerifyEnv) (x sig : Bytes) (hl : x.length = 32)
   have hpo : isPushOnly [] = true := by simp [isPushOnly, parse, parseOps]
   unfold verifyScript
   cases hT : has env.flags FLAG_TAPROOT <;>
-  simp [e0, e1, hwp, hsh, hpo, hW, hT, requireTrueTop, hnz, verifyWitnessProgram, hl, hsig,
+  simp [e0, e1, hwp, hsh, hpo, hW, hT, requireTrueTop, hnz, verifyWitnessProgram, stripAnnex, hl, hsig,
     Except.bind, bind, pure, Except.pure]
 
 /-- the single-key tapscript leaf `<x> CHECKSIG` -/
@@ -97,13 +97,13 @@ theorem verify_tr_leaf (env : VerifyEnv) (q x sig control : Bytes) (m : Nat) (hq
   have hex := fun w hw => execute_leaf env x sig w hl hne hslen hw hsig
   unfold verifyScript
   cases hT : has env.flags FLAG_TAPROOT
-  · simp [e0, e1, hwp, hsh, hpo, hW, hT, requireTrueTop, hnz, verifyWitnessProgram, hq,
+  · simp [e0, e1, hwp, hsh, hpo, hW, hT, requireTrueTop, hnz, verifyWitnessProgram, stripAnnex, hq,
       Except.bind, bind, pure, Except.pure]
   · have hexw := hex ((witnessSerializeSize [control, leafScript x, sig] : Int) + (VALIDATION_WEIGHT_OFFSET : Int))
       (by simp [VALIDATION_WEIGHT_OFFSET]; omega)
     have hcom' : env.commitment control q (env.taggedHash "TapLeaf".toByteArray.toList
       (192 :: (compactSize (leafScript x).length ++ leafScript x))) = .ok true := hcom
-    simp [hcom', e0, e1, hwp, hsh, hpo, hW, hT, requireTrueTop, hnz, verifyWitnessProgram, hq, h50, hc1, hc2, hc3, hv, hcom,
+    simp [hcom', e0, e1, hwp, hsh, hpo, hW, hT, requireTrueTop, hnz, verifyWitnessProgram, stripAnnex, hq, h50, hc1, hc2, hc3, hv, hcom,
       hexw, Except.bind, bind, pure, Except.pure]
 
 end Btc.Spend.Eval
